@@ -22,6 +22,16 @@ trips are the guaranteed-positive pairs: how many of them were equal is a floor-
 counter (a monitor that never sees an equal pair gives INCONCLUSIVE), not a verdict —
 the statement does not promise that identical constructions are equal.
 
+Second family ("method" cases): the derived node is made by the node's OWN methods from one
+source node — ``substitute`` (reference rename / swap / swap with an unreferenced key / rename there
+and back / rename after a pickle round trip or a ``copy()`` / inlining a DataNode or a Task for a key,
+with and without ``key=``), no-op substitutions, ``substitute({}, key=..)``, ``copy()``, pickle /
+cloudpickle, and ``GraphNode.fuse(producer, node)`` before vs after a substitution — either AFTER the
+source node's token has been computed and cached (by a random one of ``hash(a)``, ``tokenize(a)``,
+``a == rebuild``, tokenizing an enclosing Task / List / python tuple) or BEFORE any token exists
+(control).  Same oracle; each pair is also judged inside freshly built enclosing ``Task`` / ``List`` nodes.
+The source may be a keyed Task, a bare List/Tuple/Set/Dict holding nested Tasks, an Alias or a DataNode.
+
 Label: pairs whose terms are equal up to the order of the elements inside List/Tuple
 containers and of the flattened key/value sequence of Dict containers get the single label
 of that mechanism; every other alarm is labelled by the derivation that produced the pair.
@@ -33,6 +43,8 @@ Calibration (unchanged tree)
   python ``set()`` constructor is skipped (python refuses), counted in ``pairs_python_refuses``.
 * ``List(..).copy()`` / ``Dict(..).copy()`` raise (TypeError / AssertionError in ``Task.copy``): ``copy()`` pairs are
   made for Task / Alias / DataNode nodes only; the statement does not speak about ``copy``.
+* ``substitute`` is documented for values that are keys or GraphNodes: ``Alias.substitute({'x': TaskRef('y')})`` returns the
+  bare TaskRef (not a node, not callable); TaskRef values are not generated.
 * Nodes are compared with ``==`` only against nodes: ``GraphNode.__eq__`` is type-strict, Alias/DataNode
   are unhashable (``__eq__`` without ``__hash__``); hash is read only where it exists.
 """
@@ -46,48 +58,71 @@ RULE = ("cases = (seed) -> one random base node term (call / keyword call / bare
         "0-3 referenced keys out of 6 names, nesting depth <= 3) and up to 14 derived terms (21 derivation kinds) plus identical "
         "rebuild, copy, pickle and cloudpickle round trips; each pair is built with the real classes and, when == or tokens "
         "agree, evaluated on 3 random value assignments; non-trivial = the base term has a container or a reference and at "
-        "least one derived pair was judged; distinct = distinct base terms")
+        "least one derived pair was judged; distinct = distinct base terms; 'method' cases = (seed, order) -> one source node, its "
+        "token forced (or not) by one of 6 ways, 8-17 nodes derived by substitute/copy/pickle/fuse, each pair judged bare and "
+        "inside an enclosing Task and List")
 ASSUMPTIONS = ["the tagged functions f/g/h digest their arguments order- and type-sensitively, so different arguments give different results",
                "python == on plain values (tuples of strings, lists, dicts, sets) is the equality of results"]
 BUDGET = {"quick": 75, "thorough": 600}
 FLOORS = {
-    # measured on the unchanged tree (quick, 5 seeds): 2200 cases, ~1790 distinct non-trivial, ~22.7k pairs, ~11.7k judged,
-    # ~2.3k derived pairs judged (~600 once List/Tuple/Dict tokens keep their order: the floor must hold in both worlds)
-    "quick": {"evaluations": 1000, "distinct_nontrivial": 800, "max_skipped_fraction": 0.2,
+    # measured on the current tree (quick, 5 seeds): 3800 cases, ~3250 distinct non-trivial; constructor family ~22.7k pairs,
+    # ~10k judged, ~600 derived pairs judged; method family 1600 cases, ~22.8k pairs (+ ~44.7k enclosed), ~32k judged,
+    # ~35k pairs with different values (the monitor had a chance), ~890 source nodes with a cached token, ~430 fuse pairs
+    "quick": {"evaluations": 1800, "distinct_nontrivial": 1500, "max_skipped_fraction": 0.2,
               "counters": {"pairs": 10000, "identical_pairs": 4000, "identical_pairs_equal_and_same_token": 4000,
                            "pairs_judged": 4500, "pairs_judged_equal_values": 4000, "derived_pairs_judged": 250,
-                           "pairs_differing_by_container_order_or_pairing_only": 1000, "pairs_different_identity": 4500}},
-    "thorough": {"evaluations": 18000, "distinct_nontrivial": 13000, "max_skipped_fraction": 0.2,
+                           "pairs_differing_by_container_order_or_pairing_only": 1000, "pairs_different_identity": 4500,
+                           "method_cases_tokenized-first": 500, "method_cases_derived-first": 220,
+                           "method_pairs": 10000, "method_pairs_tokenized-first": 7000, "method_pairs_derived-first": 3200,
+                           "method_enclosed_pairs": 20000, "method_pairs_judged": 14000,
+                           "method_pairs_with_different_values_tokenized-first": 10000,
+                           "method_pairs_with_different_values_derived-first": 5000,
+                           "source_nodes_with_cached_token": 400, "method_fuse_pairs": 190}},
+    "thorough": {"evaluations": 33000, "distinct_nontrivial": 26000, "max_skipped_fraction": 0.2,
                  "counters": {"pairs": 180000, "identical_pairs": 75000, "identical_pairs_equal_and_same_token": 75000,
                               "pairs_judged": 80000, "pairs_judged_equal_values": 75000, "derived_pairs_judged": 4500,
                               "pairs_differing_by_container_order_or_pairing_only": 18000,
-                              "pairs_different_identity": 85000}},
+                              "pairs_different_identity": 85000,
+                              "method_cases_tokenized-first": 9000, "method_cases_derived-first": 4000,
+                              "method_pairs": 190000, "method_pairs_tokenized-first": 130000,
+                              "method_pairs_derived-first": 60000, "method_enclosed_pairs": 380000,
+                              "method_pairs_judged": 260000,
+                              "method_pairs_with_different_values_tokenized-first": 190000,
+                              "method_pairs_with_different_values_derived-first": 90000,
+                              "source_nodes_with_cached_token": 7500, "method_fuse_pairs": 3500}},
 }
 EXHAUSTIVE_SPACE = None
 LEVEL_NOTE = "trusts python equality of plain values and the harness term evaluator is not even needed: both sides are evaluated by dask"
 CLAIM = ("For every generated pair of nodes that compared equal or had equal tokens, both nodes were evaluated on the same "
-         "three random dependency assignments and gave equal results, apart from the listed known findings; pairs that "
-         "differ only by element order in List/Tuple or by Dict pairing are generated in every case.")
+         "three random dependency assignments and gave equal results; pairs that differ only by element order in List/Tuple "
+         "or by Dict pairing are generated in every case, and nodes derived by substitute/copy/pickle/fuse from a source node "
+         "whose token was already cached are compared with it in the same way.")
 TECHNIQUE = "runtime monitoring: ==/tokenize/hash of derived node pairs + differential evaluation node(values) on shared inputs"
 
 LABEL_ORDER = "nested-container:List-Tuple-element-order-or-Dict-pairing-differs:equal-and-same-token-but-different-values"
-PENDING = {
-    LABEL_ORDER: "NestedContainer.__dask_tokenize__ sorts the element tokens: List(x, 1) == List(1, x), Tuple likewise, "
-                 "Dict(a=x, b=2) == Dict(a=2, b=x) and Dict({'a': 'b'}) == Dict({'b': 'a'}) (also inside Task arguments) "
-                 "although they compute different values",
-}
+# Fixed in /repo by e1d3253 (order-preserving tokens for List/Tuple, pair tokens for Dict): found by this monitor on the
+# tree before that commit (List(x, 1) == List(1, x), Dict(a=x, b=2) == Dict(a=2, b=x)); the label stays as the
+# classification of that mechanism should it come back.
+PENDING = {}
 
 NAMES = ["x", "y", "z", "w", ("x", 1), 7]
 SCALARS = [1, 2, 3, "a", "b", "x", "y", 2.5, None, True, b"a", 0, "z", 7]
 DKEYS = ["a", "b", "c", "x", 1, ("t", 9), "y"]
 QUICK_CASES = 2200
 THOROUGH_CASES = 40000
+QUICK_METHOD_CASES = 1600
+THOROUGH_METHOD_CASES = 30000
 
 
 def cases(tier, seed):
     rng = random.Random(seed * 9973 + 11)
     for _ in range(QUICK_CASES if tier == "quick" else THOROUGH_CASES):
         yield {"seed": rng.randrange(2 ** 31)}
+    # pairs derived with the node's own methods, before / after the node's token has been computed and cached
+    rng = random.Random(seed * 7717 + 5)
+    for _ in range(QUICK_METHOD_CASES if tier == "quick" else THOROUGH_METHOD_CASES):
+        yield {"seed": rng.randrange(2 ** 31), "kind": "method",
+               "order": "tokenized-first" if rng.random() < 0.7 else "derived-first"}
 
 
 # ---------------------------------------------------------------------------------------------
@@ -540,6 +575,8 @@ def run_case(case, ctx):
     from dask.tokenize import tokenize
     from vf.gen import c08_legacy as L
 
+    if case.get("kind") == "method":
+        return _run_method_case(case, ctx)
     rng = random.Random(case["seed"])
     g = _G(rng)
     base = g.base()
@@ -662,3 +699,236 @@ def run_case(case, ctx):
                       term_a=_canon(base, False), term_b=_canon(t2, False), derivation=name)
     ctx.nontrivial = bool(judged and (tags & {"list", "tuple", "dict", "set", "ref", "nested-call"}))
     ctx.sample = {"base": _canon(base, False)[:200], "node": repr(a)[:120], "pairs": len(pairs), "judged": judged}
+
+
+# ---------------------------------------------------------------------------------------------
+# pairs derived with the node's own methods, with or without a cached token on the source node
+
+FORCERS = ("hash", "tokenize", "eq-with-rebuild", "enclosing-task", "enclosing-list", "enclosing-python-tuple")
+
+
+def _force_token(rng, a, rebuild):
+    """make dask compute (and cache, where it caches) the token of `a` and of everything nested in it"""
+    from dask._task_spec import List, Task
+    from dask.tokenize import tokenize
+    from vf.gen.c08_legacy import FUNCS
+
+    ways = list(FORCERS)
+    rng.shuffle(ways)
+    for way in ways:
+        if way == "hash":
+            try:
+                hash(a)
+            except TypeError:       # Alias / DataNode define __eq__ without __hash__
+                continue
+        elif way == "tokenize":
+            tokenize(a)
+        elif way == "eq-with-rebuild":
+            a == rebuild()          # noqa: B015 - evaluated for its side effect on the cached token
+        elif way == "enclosing-task":
+            tokenize(Task("outer", FUNCS["f"], a, 1))
+        elif way == "enclosing-list":
+            tokenize(List(a, 1))
+        else:
+            tokenize((a, 1))
+        return way
+    return "none"
+
+
+def _method_derivations(rng, a):
+    """(name, thunk) deriving a node from `a` with dask's own methods.  Names are mechanism names: all
+    dependency-rewriting substitutions are 'substitute'."""
+    import cloudpickle
+
+    from dask._task_spec import DataNode, NestedContainer, Task, TaskRef
+    from vf.gen.c08_legacy import FUNCS
+
+    deps = sorted(a.dependencies, key=repr)
+    outside = [n for n in NAMES if n not in a.dependencies]
+    out = []
+    if deps:
+        x = rng.choice(deps)
+        y = rng.choice([n for n in NAMES if n != x])
+        out.append(("substitute", "rename", lambda: a.substitute({x: y})))
+        out.append(("substitute", "rename+key", lambda: a.substitute({x: y}, key="renamed")))
+        if outside:
+            o = rng.choice(outside)
+            out.append(("substitute", "swap-with-unreferenced", lambda: a.substitute({x: o, o: x})))
+            out.append(("substitute", "rename-there-and-back", lambda: a.substitute({x: o}).substitute({o: x})))
+        const = rng.choice((5, "five", (5, 6)))
+        out.append(("substitute", "inline-datanode", lambda: a.substitute({x: DataNode(None, const)})))
+        out.append(("substitute", "inline-task",
+                    lambda: a.substitute({x: Task(None, FUNCS["g"], TaskRef(y), 1)})))
+        out.append(("substitute", "pickle-then-rename", lambda: pickle.loads(pickle.dumps(a)).substitute({x: y})))
+    if len(deps) >= 2:
+        p, q = rng.sample(deps, 2)
+        out.append(("substitute", "swap", lambda: a.substitute({p: q, q: p})))
+        out.append(("substitute", "swap+key", lambda: a.substitute({p: q, q: p}, key="renamed")))
+    if len(outside) >= 2:
+        o1, o2 = rng.sample(outside, 2)
+        out.append(("substitute-noop", "unreferenced", lambda: a.substitute({o1: o2})))
+    if deps:
+        out.append(("substitute-noop", "identity", lambda: a.substitute({deps[0]: deps[0]})))
+    out.append(("substitute-key", "key-only", lambda: a.substitute({}, key="renamed")))
+    if not isinstance(a, NestedContainer):          # NestedContainer.copy() raises (see Calibration)
+        out.append(("copy", "copy", lambda: a.copy()))
+        if deps:
+            out.append(("substitute", "copy-then-rename", lambda: a.copy().substitute({x: y})))
+    out.append(("pickle", "pickle", lambda: pickle.loads(pickle.dumps(a))))
+    out.append(("pickle", "cloudpickle", lambda: cloudpickle.loads(cloudpickle.dumps(a))))
+    return out
+
+
+def _judge(ctx, L, tokenize, label, what, a, b, va, assigns, order, detail, tag="pair"):
+    """the oracle of the statement on one pair; returns 'unequal' | 'held' | 'violated' | 'skipped'"""
+    try:
+        eq = bool(a == b) or bool(b == a)
+        teq = tokenize(a) == tokenize(b)
+    except Exception as e:  # noqa: BLE001
+        ctx.exception(e, prefix="method-compare:" + tag)
+        return "skipped"
+    try:
+        heq = hash(a) == hash(b)
+    except TypeError:
+        heq = None
+    try:
+        vb = _evaluate(b, assigns)
+    except TypeError as e:
+        if "unhashable" in str(e):
+            ctx.count("pairs_python_refuses")
+            return "skipped"
+        ctx.exception(e, prefix="method-evaluate:" + tag)
+        return "skipped"
+    except Exception as e:  # noqa: BLE001
+        ctx.exception(e, prefix="method-evaluate:" + tag)
+        return "skipped"
+    bad = [i for i in range(len(assigns)) if not L.equalish(va[i], vb[i])]
+    if bad:
+        ctx.count("method_pairs_with_different_values")
+        ctx.count("method_pairs_with_different_values_" + order)
+    if not (eq or teq):
+        return "unequal"
+    ctx.count("method_pairs_judged")
+    if not bad:
+        return "held"
+    i = bad[0]
+    how = "+".join(x for x, y in (("==", eq), ("same-token", teq), ("same-hash", bool(heq))) if y)
+    ctx.violation(label,
+                  "%s: a=%r b=%r are %s but a(values)=%r, b(values)=%r for values %r"
+                  % (what, a, b, how, va[i], vb[i], {repr(k): v for k, v in assigns[i].items()}), **detail)
+    return "violated"
+
+
+def _run_method_case(case, ctx):
+    from dask._task_spec import GraphNode, List, Task, TaskRef
+    from dask.tokenize import tokenize
+    from vf.gen import c08_legacy as L
+
+    rng = random.Random(case["seed"])
+    order = case["order"]
+    g = _G(rng)
+    base = None
+    for _ in range(8):                      # prefer base terms that reference keys: substitute has something to do
+        base = g.base()
+        if L.refs_of(base) or rng.random() < 0.08:
+            break
+    keyed = rng.random() < 0.6
+    assigns = _assignments(case["seed"] ^ 0x3C3C)
+
+    def rebuild():
+        return _build(base, keyed, "node")
+
+    try:
+        a = rebuild()
+        va = _evaluate(a, assigns)
+    except TypeError as e:
+        if "unhashable" in str(e):
+            ctx.reject("python refuses: %s" % e)
+            return
+        ctx.exception(e, prefix="method-build")
+        return
+    except Exception as e:  # noqa: BLE001
+        ctx.exception(e, prefix="method-build")
+        return
+    ctx.sig = ("method", order, _canon(base, False))
+    ctx.op("method-base:" + type(a).__name__)
+    ctx.count("method_cases_" + order)
+    forced = "none"
+    if order == "tokenized-first":
+        try:
+            forced = _force_token(rng, a, rebuild)
+        except Exception as e:  # noqa: BLE001
+            ctx.exception(e, prefix="tokenize-base")
+            return
+        ctx.op("token-forced-by:" + forced)
+        if getattr(a, "_token", None):
+            ctx.count("source_nodes_with_cached_token")
+    ders = _method_derivations(rng, a)
+    built = []
+    for mech, variant, thunk in ders:
+        try:
+            b = thunk()
+        except Exception as e:  # noqa: BLE001
+            ctx.exception(e, prefix="method:%s" % mech, variant=variant)
+            continue
+        built.append((mech, variant, b))
+    # Task.fuse of the node with a producer of one of its dependencies, before and after a substitution
+    # (built here, before any pair is compared, so that 'derived-first' really means: no token computed yet)
+    fuse_pair = None
+    deps = sorted(a.dependencies, key=repr)
+    if getattr(a, "key", None) is not None and len(deps) >= 2:
+        if len(deps) >= 3:
+            # swap two other dependencies: the fused task keeps its external dependencies, only the inner task changes
+            x, y, z = rng.sample(deps, 3)
+            subs = {y: z, z: y}
+        else:
+            x, y = rng.sample(deps, 2)
+            z = rng.choice([n for n in NAMES if n not in (x, y)])
+            subs = {y: z}
+        w = rng.choice([n for n in NAMES if n != x])
+        try:
+            prod = Task(x, L.FUNCS["g"], TaskRef(w), 1)
+            fb_inner = a.substitute(subs)
+            fa = GraphNode.fuse(prod, a, key="fused")
+            fb = GraphNode.fuse(prod, fb_inner, key="fused")
+            fuse_pair = (fa, fb, _evaluate(fa, assigns))
+        except Exception as e:  # noqa: BLE001
+            ctx.exception(e, prefix="method:fuse")
+    judged = 0
+    for mech, variant, b in built:
+        ctx.count("method_pairs")
+        ctx.count("method_pairs_" + order)
+        ctx.op("method:%s/%s" % (mech, variant))
+        label = "method-derived:%s:%s:equal-or-same-token-but-different-values" % (mech, order)
+        detail = {"variant": variant, "token_forced_by": forced, "term": _canon(base, False)}
+        r = _judge(ctx, L, tokenize, label, "%s/%s (%s, token forced by %s)" % (mech, variant, order, forced),
+                   a, b, va, assigns, order, detail, tag=mech)
+        if r in ("held", "violated"):
+            judged += 1
+        if r == "violated" or not isinstance(b, GraphNode):
+            continue
+        # the same two nodes inside freshly built enclosing nodes (their identity is made of the children's tokens)
+        for wname, wrap in (("enclosing-Task", lambda n: Task("outer", L.FUNCS["lst"], n, 1)),
+                            ("enclosing-List", lambda n: List(n, 1))):
+            try:
+                wa, wb = wrap(a), wrap(b)
+                vwa = _evaluate(wa, assigns)
+            except Exception as e:  # noqa: BLE001
+                ctx.exception(e, prefix="method-wrap:" + wname)
+                continue
+            ctx.count("method_enclosed_pairs")
+            _judge(ctx, L, tokenize, label + ":" + wname, "%s/%s inside %s (%s)" % (mech, variant, wname, order),
+                   wa, wb, vwa, assigns, order, detail, tag=mech + "-" + wname)
+    if fuse_pair is not None:
+        fa, fb, vfa = fuse_pair
+        ctx.count("method_pairs")
+        ctx.count("method_fuse_pairs")
+        ctx.op("method:fuse/of-substituted")
+        r = _judge(ctx, L, tokenize, "method-derived:fuse-of-substituted:%s:equal-or-same-token-but-different-values" % order,
+                   "fuse(producer, a) vs fuse(producer, a.substitute) (%s)" % order, fa, fb, vfa, assigns, order,
+                   {"token_forced_by": forced, "term": _canon(base, False)}, tag="fuse")
+        if r in ("held", "violated"):
+            judged += 1
+    ctx.nontrivial = bool(judged and L.refs_of(base))
+    ctx.sample = {"base": _canon(base, False)[:200], "node": repr(a)[:120], "order": order, "token_forced_by": forced,
+                  "derived": len(built), "judged": judged}
